@@ -390,7 +390,8 @@ fn ntt120_vec_znx_big_normalize_inter<R, A, BE>(
     let res_size = res.size();
     let a_size = a.size();
 
-    let (carry, _) = carry.split_at_mut(n);
+    let (carry, rest) = carry.split_at_mut(n);
+    let zero: &mut [i128] = &mut rest[..n];
 
     let mut lsh: i64 = res_offset % base2k as i64;
     let mut limbs_offset: i64 = res_offset / base2k as i64;
@@ -420,6 +421,12 @@ fn ntt120_vec_znx_big_normalize_inter<R, A, BE>(
 
     if a_out_range == 0 {
         nfc_zero(carry);
+    }
+
+    // A negative offset beyond the precision of res: the carry passes through the vacated positions below res.
+    for _ in res_size as i64..-limbs_offset {
+        nfc_zero(zero);
+        nfc_middle_carry_only(base2k, lsh_pos, zero, carry);
     }
 
     // Zero bottom res limbs that will not receive a value.
@@ -589,6 +596,18 @@ fn ntt120_vec_znx_big_normalize_cross<R, A, BE>(
         }
     }
 
+    // A negative offset beyond the precision of res: `a` lies entirely below res and its carry
+    // sits (-limbs_offset * a_base2k - res_tot_bits) bits below the last limb of res.
+    if a_start == a_end && limbs_offset < 0 {
+        let mut gap: usize = ((-limbs_offset) as usize * a_base2k).saturating_sub(res_tot_bits);
+        nfc_zero(a_norm);
+        while gap != 0 {
+            let take: usize = gap.min(a_base2k);
+            nfc_middle_carry_only(take, 0, a_norm, a_carry);
+            gap -= take;
+        }
+    }
+
     // Propagate carry into the lower (already-zero) res limbs.
     if res_end != 0 {
         let carry_to_use = if a_start == a_end { a_carry } else { res_carry };
@@ -624,7 +643,8 @@ fn ntt120_vec_znx_big_normalize_inter_assign<O, R, A, BE>(
     let res_size = res.size();
     let a_size = a.size();
 
-    let (carry, _) = carry.split_at_mut(n);
+    let (carry, rest) = carry.split_at_mut(n);
+    let zero: &mut [i128] = &mut rest[..n];
 
     let mut lsh: i64 = res_offset % base2k as i64;
     let mut limbs_offset: i64 = res_offset / base2k as i64;
@@ -650,6 +670,12 @@ fn ntt120_vec_znx_big_normalize_inter_assign<O, R, A, BE>(
     }
     if a_out_range == 0 {
         nfc_zero(carry);
+    }
+
+    // A negative offset beyond the precision of res: the carry passes through the vacated positions below res.
+    for _ in res_size as i64..-limbs_offset {
+        nfc_zero(zero);
+        nfc_middle_carry_only(base2k, lsh_pos, zero, carry);
     }
 
     let mid_range: usize = a_start.saturating_sub(a_end);
@@ -798,6 +824,18 @@ fn ntt120_vec_znx_big_normalize_cross_assign<O, R, A, BE>(
                 nfc_add_assign(a_carry, a_norm);
                 break 'inner;
             }
+        }
+    }
+
+    // A negative offset beyond the precision of res: `a` lies entirely below res and its carry
+    // sits (-limbs_offset * a_base2k - res_tot_bits) bits below the last limb of res.
+    if a_start == a_end && limbs_offset < 0 {
+        let mut gap: usize = ((-limbs_offset) as usize * a_base2k).saturating_sub(res_tot_bits);
+        nfc_zero(a_norm);
+        while gap != 0 {
+            let take: usize = gap.min(a_base2k);
+            nfc_middle_carry_only(take, 0, a_norm, a_carry);
+            gap -= take;
         }
     }
 
